@@ -593,6 +593,10 @@ class ExceptionMonitor(Monitor):
         if e is None:
             return
         if not e.is_lib:
+            if rec.op == "put" and e.cls == "ValueError" and e.func == "put_request" and rec.pre.key() == rec.post.key():
+                # put_request documents ValueError for a request it cannot accept (raised before any state change)
+                w.probe("C10.put_request_value_error")
+                return
             if w.fs_fault is not None and e.cls in ("FileNotFoundError", "PermissionError"):
                 # the user's filestore was made to fail in this population (not in C10's quantifier)
                 w.probe("C10.filestore_exception_passed_on")
